@@ -43,6 +43,9 @@ var extraScale = map[string]func(c *Case, res map[string]any, fail func(string, 
 	"chans-merge-concurrent":  scaleChansMergeConcurrent,
 	"mapstream-two-instances": scaleMapStreamTwoInstances,
 	"do-nested-last":          scaleDoNestedLast,
+	"pipe-send-storm":         scalePipeSendStorm,
+	"pipe-close-error-storm":  scalePipeCloseErrorStorm,
+	"smerge-many":             scaleSMergeMany,
 }
 
 // ---- C03: keys and values that were deleted or moved elsewhere can be garbage collected.
@@ -1056,5 +1059,131 @@ func scaleDoNestedLast(c *Case, res map[string]any, fail func(string, ...any)) {
 				return
 			}
 		}
+	}
+}
+
+// ---- C10: Send returns once its context expires - also when several Sends find the last free slot in the same instant.
+func scalePipeSendStorm(c *Case, res map[string]any, fail func(string, ...any)) {
+	rounds := num(c.Cfg["rounds"])
+	k := num(c.Cfg["k"])
+	capn := num(c.Cfg["cap"])
+	for r := 0; r < rounds; r++ {
+		sender, recv := stream.Pipe[int](capn)
+		ctx, cancel := context.WithCancel(context.Background())
+		var start atomic.Bool
+		var okc, returned atomic.Int32
+		var wg sync.WaitGroup
+		for g := 0; g < k; g++ {
+			wg.Add(1)
+			go func(g int) {
+				defer wg.Done()
+				for !start.Load() {
+				}
+				if err := sender.Send(ctx, g); err == nil {
+					okc.Add(1)
+				}
+				returned.Add(1)
+			}(g)
+		}
+		time.Sleep(50 * time.Microsecond)
+		start.Store(true)
+		time.Sleep(200 * time.Microsecond)
+		cancel() // nobody reads: the Sends that found no room must now return with the context's error
+		done := make(chan struct{})
+		go func() { wg.Wait(); close(done) }()
+		select {
+		case <-done:
+		case <-time.After(3 * time.Second):
+			fail("round %d: %d goroutines called Send on Pipe(%d) that nobody reads; 3s after their context was cancelled only %d calls have returned", r, k, capn, returned.Load())
+			sender.Close(nil)
+			recv.Close()
+			return
+		}
+		if int(okc.Load()) > capn {
+			fail("round %d: %d Sends succeeded on Pipe(%d) that nobody reads", r, okc.Load(), capn)
+			return
+		}
+		sender.Close(nil)
+		recv.Close()
+	}
+}
+
+// ---- C10: a receiver that enters Next in the very moment the sender closes with an error is told that error (or waits),
+// never the end.
+func scalePipeCloseErrorStorm(c *Case, res map[string]any, fail func(string, ...any)) {
+	rounds := num(c.Cfg["rounds"])
+	boom := errors.New("boom")
+	for r := 0; r < rounds; r++ {
+		sender, recv := stream.Pipe[int](0)
+		var start atomic.Bool
+		var got error
+		var wg sync.WaitGroup
+		wg.Add(2)
+		d := r % 40
+		go func() {
+			defer wg.Done()
+			for !start.Load() {
+			}
+			spinFor(d)
+			sender.Close(boom)
+		}()
+		go func() {
+			defer wg.Done()
+			for !start.Load() {
+			}
+			spinFor(20)
+			_, got = recv.Next(context.Background())
+		}()
+		start.Store(true)
+		wg.Wait()
+		if got != boom {
+			fail("round %d: the sender closed with an error while the receiver entered Next: Next returned %v", r, got)
+			return
+		}
+		if _, err := recv.Next(context.Background()); err != boom {
+			fail("round %d: the close error was reported, the following Next returned %v", r, err)
+			return
+		}
+		recv.Close()
+	}
+}
+
+var spinSink atomic.Int64
+
+func spinFor(n int) {
+	for i := 0; i < n*8; i++ {
+		spinSink.Add(1)
+	}
+}
+
+// ---- C12: stream.Merge over very many inputs still reports the end (a count of finished inputs must not wrap around).
+func scaleSMergeMany(c *Case, res map[string]any, fail func(string, ...any)) {
+	n := num(c.Cfg["n"])
+	ins := make([]stream.Stream[int], n)
+	for i := range ins {
+		if i%1000 == 0 {
+			ins[i] = stream.FromIterator(iterator.Slice([]int{i}))
+		} else {
+			ins[i] = stream.Empty[int]()
+		}
+	}
+	m := stream.Merge(ins...)
+	ctx, cancel := context.WithTimeout(context.Background(), 25*time.Second)
+	defer cancel()
+	got := 0
+	for {
+		_, err := m.Next(ctx)
+		if err == stream.End {
+			break
+		}
+		if err != nil {
+			fail("Merge over %d inputs: after %d values Next returned %v (the end was never reported)", n, got, err)
+			break
+		}
+		got++
+	}
+	m.Close()
+	if want := (n + 999) / 1000; res["ok"].(bool) && got != want {
+		fail("Merge over %d inputs delivered %d values, %d were sent", n, got, want)
 	}
 }
